@@ -251,9 +251,12 @@ PROPERTIES["C08"] = {
           bounds="Package::clear_signatures (MIR): the recorded SHA256 equals hex(SHA-256(serialised header)) with SHA-256 as an uninterpreted function; no signature survives") for h in (0, 3) for s in ("empty", "stale")]
     + [MH("c08_filedigest_" + n, inputs="two add_data calls, contents symbolic", timeout=300,
           bounds="per-file digest and size recorded when a file is added (PackageBuilder::add_data), %s destination" % n) for n in ("same", "diff")]
+    + [MH("c08_build_" + n, inputs="files of %s symbolic content bytes" % (n.replace("_", "/") if n != "empty" else "no"), timeout=900,
+          bounds="PackageBuilder .. build() (MIR): header digest in the signature header, payload digest, alternate payload digest, per-file digests vs SHA-256 (uninterpreted) of the bytes they name")
+       for n in ("empty", "1", "0_3", "2_1_4")]
     + [H("c08_twin", sub="digest", role="twin", timeout=900)],
-    "bounds": "the hashing writer (Sha256Writer) with data of 1..4 symbolic bytes through inner sinks accepting 1, 2, 3 or all bytes per call",
-    "outside": "digests computed inside PackageBuilder::prepare_data (payload, per-file, header digest on build) and on sign (needs real OpenPGP packets): outside reach (DESIGN.md C08); longer data",
+    "bounds": "the hashing writer (Sha256Writer) with data of 1..4 symbolic bytes through inner sinks accepting 1, 2, 3 or all bytes per call; built packages with up to three files of 0..4 symbolic bytes, uncompressed",
+    "outside": "compressed payloads (the alternate digest then differs from the payload digest; compressors are FFI); digests after sign (needs real OpenPGP packets); longer data",
     "assumptions": A_COMMON + [A_S4, A_S5, A_SHAPES, "inner sink: KSink short writes only (no failure/Interrupted); std's write_all drives Sha256Writer::write"],
 }
 
@@ -548,7 +551,8 @@ C03_KANI.update(claim="verify_digests is model-checked on a package of fixed sma
 
 PROPERTIES["C08"].update(claim="The hashing writer used for the alternate payload digest is model-checked: for data of 1..4 symbolic bytes pushed with write_all through an inner sink "
                          "that accepts 1/2/3/all bytes per call, the recorded digest equals SHA-256 (portable back end, compression stubbed in the quick tier) of the bytes the sink received. "
-                         "Builder-computed digests are outside the claim.", note=_NOTE)
+                         "On the MIR engine (SHA-256 as an uninterpreted function of the exact bytes hashed): every digest a build records - header digest, payload digest, alternate payload digest, "
+                         "per-file digests - and the header digest after clear_signatures name the bytes the property says, for uncompressed packages with up to three small files.", note=_NOTE)
 
 _NOTE_MIR = ("Bounded by the listed shapes (component lengths) and to ASCII. Trusted base: the MIR interpreter and its models of std functions (validated on every run against the "
              "real compiled crate on concrete inputs), z3, the oracle written from the property statement. Release semantics (debug assertions off, overflow checks on).")
